@@ -85,7 +85,14 @@ func (f *CSVFormatter) prepareLine(line interface{}) map[string]interface{} {
 	if l.Kind() == reflect.Map {
 		m := map[string]interface{}{}
 		for _, name := range l.MapKeys() {
-			m[name.Interface().(string)] = l.MapIndex(name).Interface()
+			// The keys do not have to be strings (SpouseChildren is keyed by
+			// the spouse).
+			column, ok := name.Interface().(string)
+			if !ok {
+				column = fmt.Sprintf("%v", name.Interface())
+			}
+
+			m[column] = l.MapIndex(name).Interface()
 		}
 
 		return m
